@@ -99,7 +99,8 @@ def replay_pair(real_pair, tol, box=None, hyp_real=None, extra_points=40, seed=0
     further points of the box is tried (still a concrete failing input when one is found)."""
 
     def rp(w):
-        pts = [dict(w)]
+        # the prover's witness is used only if it is a complete point (an undecided obligation has none: {})
+        pts = [dict(w)] if (w and (not box or all(k_ in w for k_ in box))) else []
         rng = random.Random(seed)
         if box:
             for _ in range(extra_points):
